@@ -1,5 +1,6 @@
 """C05 — serialize then deserialize returns an equal instance; output is pure JSON."""
 import json
+import random
 import re
 from ..suites import serde as S
 from ..suites import extras as X
@@ -29,6 +30,7 @@ ASSUMPTIONS = [
 
 def cases(rng, tier):
     return [c for c in S.gen_cases(rng, tier, 250 if tier == "quick" else 3500) if c["mode"] == "roundtrip"] \
+        + S.anyof_optional_cases(random.Random("aopt" + str(rng.getstate()[1][0])), 60 if tier == "quick" else None) \
         + X.directed_cases() + X.gen_cases(rng, 300 if tier == "quick" else 6000)
 
 
